@@ -112,9 +112,10 @@ type c39WriteRec struct {
 }
 
 // c39Match decides whether got is explained by the writes.
-//   full:   got == concatenation where each successful write contributes all
-//           its bytes and each failed write a prefix (nothing if deliverNone)
-//   prefix: got is a prefix of such a concatenation
+//
+//	full:   got == concatenation where each successful write contributes all
+//	        its bytes and each failed write a prefix (nothing if deliverNone)
+//	prefix: got is a prefix of such a concatenation
 func c39Match(writes []c39WriteRec, got []byte) (full, prefix bool) {
 	cur := map[int]bool{0: true}
 	L := len(got)
